@@ -682,6 +682,15 @@ def run(ck: core.Check):
         programs.append((L.gen_program(random.Random(rng.getrandbits(48)), size=size, max_depth=rng.choice([2, 3, 3, 4]),
                                        opset=rng.choice([17, 17, 17, 18, 18, 19, 20, 21])), "random"))
 
+    # other element types / zero- and other-length vectors for the type-generic skeleton families
+    hist_retype = collections.Counter()
+    for i_, (p_, o_) in enumerate(programs):
+        if o_.split(":")[0] in ("skeleton", "skeleton2", "skeleton3", "skeleton5") and rng.random() < 0.35:
+            dt_, ln_ = rng.choice([("f64", None), ("i32", None), ("f16", None), (None, 0), ("f64", 0), ("i32", 0), (None, 1), ("f16", 5)])
+            q_ = L.retype(p_, dt_, ln_)
+            if q_ is not None:
+                programs[i_] = (q_, f"{o_} [retyped {dt_ or 'i64'}, length {N_ if ln_ is None else ln_}]")
+                hist_retype[f"{dt_ or 'i64'}/{'N' if ln_ is None else ln_}"] += 1
     hist_opset = collections.Counter(p_["opset"] for p_, _ in programs)
     hist_ops = collections.Counter()
     hist_depth = collections.Counter()
@@ -1163,6 +1172,7 @@ def run(ck: core.Check):
                 "styles": dict(hist_style),
                 "opset_versions": dict(hist_opset),
                 "model_inputs_declared": dict(hist_dims),
+                "skeleton_programs_retyped (element type / vector length)": dict(hist_retype),
                 "caller_owned_lists_handed_to_constructors": stats["caller_owned_containers"],
                 "caller_mutations_after_construction": dict(hist_mut),
                 "container_probes_passed": dict(probe_hist),
